@@ -1,4 +1,5 @@
 import TdModel.Model.C30
+import TdModel.Model.C30Conc
 import TdModel.Prim.All
 open TdModel TdModel.C30
 
@@ -6,6 +7,8 @@ open TdModel TdModel.C30
 
 * `run <hasStorage> <primaryDC> <stored|-> <notif>…` → one token per notification: the result and the whole state
   after it. `stored` = `dc,keyhex,idhex,salt,addrhex`; `notif` = `r|c,dc,keyhex,idhex,permhex,permidhex,salt,n|l|s`
+* `conc <hasStorage> <primaryDC> <stored|-> <notif>… | <results,…> <state> <sessSalt> <storedSalt|->` → `reachable` / `unreachable`: is there an
+  interleaving of the notifications' atomic steps that ends in exactly that state with those results?
 * `restore <hasStorage> <primaryDC> nf|err|<stored>` → `ok <session>` / `err load` / `err corrupted`
   (SHA-1 = `Prims.real`)
 
@@ -66,6 +69,25 @@ def handle (line : String) : String :=
       | some s => if ns.isEmpty then "-" else " ".intercalate (runShow s ns)
       | none => "bad-op"
     | _, _ => "bad-op"
+  | "conc" :: hs :: dc :: st :: rest =>
+    let ns := rest.takeWhile (· != "|")
+    let obs := (rest.dropWhile (· != "|")).drop 1
+    let stored := if st == "-" then some none else (parseStored st).map some
+    match stored, ns.mapM parseNotif, obs with
+    | some stored, some ns, [results, state, sessSalt, storedSalt] =>
+      match mkSt hs dc stored with
+      | some s =>
+        let ts : List Thread := ns.map fun n => ⟨n, 0, 0, "", .ok⟩
+        -- the two salts are a cheap pre-filter (sent redundantly by the harness); the full state decides
+        let goal := fun (s : St) (ts : List Thread) =>
+          toString s.session.salt == sessSalt &&
+          (match s.stored with
+            | some d => toString d.salt == storedSalt
+            | none => storedSalt == "-") &&
+          showSt s == state && ",".intercalate (ts.map fun t => showRes t.res) == results
+        if reach goal (5 * ts.length) s ts then "reachable" else "unreachable"
+      | none => "bad-op"
+    | _, _, _ => "bad-op"
   | ["restore", hs, dc, l] =>
     let lr : Option LoadRes :=
       if l == "nf" then some .notFound else if l == "err" then some .err else (parseStored l).map .data
